@@ -21,12 +21,19 @@ Front == LET r == NextFront(rest) IN
 Back  == LET r == NextBack(rest) IN
          /\ rest' = r.rest /\ hist' = Append(hist, "b") /\ yielded' = Append(yielded, r.y) /\ orig' = orig
 
+\* nth(k) / nth_back(k), k = 1, 2 (k = 0 is next / next_back): "n1" "n2" "m1" "m2"
+Skip(k) == LET r == Nth(rest, k) IN
+           /\ rest' = r.rest /\ hist' = Append(hist, IF k = 1 THEN "n1" ELSE "n2") /\ yielded' = Append(yielded, r.y) /\ orig' = orig
+SkipBack(k) == LET r == NthBack(rest, k) IN
+           /\ rest' = r.rest /\ hist' = Append(hist, IF k = 1 THEN "m1" ELSE "m2") /\ yielded' = Append(yielded, r.y) /\ orig' = orig
+
 \* one extra step on the exhausted iterator is explored (fused behaviour)
-KNext == Len(hist) <= Cardinality(orig) /\ (Front \/ Back)
+Live == IF rest # {} \/ hist = <<>> THEN TRUE ELSE yielded[Len(yielded)] # 0
+KNext == Live /\ (Front \/ Back \/ \E k \in 1..2 : Skip(k) \/ SkipBack(k))
 KSpec == KInit /\ [][KNext]_vars
 
 DumpIter == PrintT(ToJson([k |-> "kind_iter", orig |-> SetSeq(orig), hist |-> hist, yielded |-> yielded,
-                           size |-> Cardinality(rest)]))
+                           size |-> Cardinality(rest), cons |-> Consumers(rest)]))
 
 DumpSet == hist = <<>> =>
   /\ PrintT(ToJson([k |-> "kind_set", s |-> SetSeq(orig), len |-> Cardinality(orig), empty |-> (orig = {}),
@@ -35,15 +42,17 @@ DumpSet == hist = <<>> =>
                                      or |-> SetSeq(Or(orig, b)), and |-> SetSeq(And(orig, b))]))
 
 \* set semantics of the iterator
+IsF(h) == h \in {"f", "n1", "n2"}
 YieldedNonZero == {yielded[i] : i \in 1..Len(yielded)} \ {0}
-IterSound == /\ YieldedNonZero \cup rest = orig
+IterSound == /\ (YieldedNonZero \cup rest) \subseteq orig       \* (skipped elements are in neither)
              /\ YieldedNonZero \cap rest = {}
              \* front yields ascend, back yields descend, fronts stay below backs
              /\ \A i, j \in 1..Len(yielded) :
                   (i < j /\ yielded[i] # 0 /\ yielded[j] # 0) =>
-                     /\ (hist[i] = "f" /\ hist[j] = "f") => yielded[i] < yielded[j]
-                     /\ (hist[i] = "b" /\ hist[j] = "b") => yielded[i] > yielded[j]
-                     /\ (hist[i] = "f" /\ hist[j] = "b") => yielded[i] < yielded[j]
-                     /\ (hist[i] = "b" /\ hist[j] = "f") => yielded[i] > yielded[j]
-             /\ \A i \in 1..Len(yielded) : yielded[i] = 0 => i > Cardinality(orig)
+                     /\ (IsF(hist[i]) /\ IsF(hist[j])) => yielded[i] < yielded[j]
+                     /\ (~IsF(hist[i]) /\ ~IsF(hist[j])) => yielded[i] > yielded[j]
+                     /\ (IsF(hist[i]) /\ ~IsF(hist[j])) => yielded[i] < yielded[j]
+                     /\ (~IsF(hist[i]) /\ IsF(hist[j])) => yielded[i] > yielded[j]
+             \* nothing is yielded only when the iterator is left exhausted
+             /\ \A i \in 1..Len(yielded) : yielded[i] = 0 => i = Len(yielded) /\ rest = {}
 =============================================================================
